@@ -713,4 +713,12 @@ def check(ctx):
         r5b_reader_constants(ctx, f, rep)
         r6_feed(ctx, f, rep)
         r7_scratch(ctx, f, rep)
+    # with the bundled (serde-based, positional) codecs, what the writer encodes is what the reader decodes only if the
+    # derived Serialize/Deserialize of the wire types are symmetric and plain (C20-R4, re-run on the configuration that
+    # compiles them)
+    from . import c20 as _c20
+    from .c09 import _Rename
+    fw = ctx.facts('wire')
+    rep.cur_config = 'wire'
+    _c20.r4_derives(ctx, fw, _Rename(rep, 'C20-R4', 'C07-R5'))
     rep.cur_config = None
